@@ -275,3 +275,161 @@ def truncation_family(rng, valid, domain, prev=None):
     # header says one question, nothing follows / QDCOUNT bigger than present
     return hdr(rng.randrange(1, 65536), 0x0100, rng.choice([1, 2])) + (D.wire_name(labels) + struct.pack(">HH", qt, 1)
                                                                         if rng.random() < 0.5 else b"")
+
+
+# ------------------------------------------------------------------ hostile replies for the CLIENT (C06 / C12 / C13)
+def _q(qid, flags, labels, qtype, an, ns=0, ar=0):
+    return hdr(qid, flags, 1, an, ns, ar) + D.wire_name(labels) + struct.pack(">HH", qtype, 1)
+
+
+def _rr(name, rtype, rdata, rdlen=None, ttl=0):
+    return name + struct.pack(">HHIH", rtype, 1, ttl, len(rdata) if rdlen is None else rdlen & 0xFFFF) + rdata
+
+
+def hostname_payload(rng, letter, text, tld=b"xy"):
+    labels = []
+    t = letter + text
+    i = 0
+    while i < len(t) and len(labels) < 6:
+        labels.append(t[i:i + 57])
+        i += 57
+    return D.wire_name(labels + [tld])
+
+
+HANDSHAKE_TEXTS = [b"VACK", b"VNAK", b"VFUL", b"LNAK", b"BADIP", b"BADLEN", b"BADCODEC", b"BADFRAG", b"Base32", b"Base64",
+                   b"Base64u", b"Base128", b"Lazy", b"Immediate", b"Raw", b"I\x7f\x00\x00\x01",
+                   b"1.2.3.4-5.6.7.8-1130-27", b"10.0.0.1-10.0.0.2-99999999999999-4294967295",
+                   b"10.0.0.1-10.0.0.2-1130--5", b"10.0.0.1-10.0.0.2-1130-0", b"10.0.0.1-10.0.0.2-1130-33",
+                   b"10.0.0.1-10.0.0.2-1130-1000000", b"a" * 70 + b"-b-1-1", b"-" * 40, b"1-2-3-4-5-6-7"]
+
+
+def hostile_payload(rng, q):
+    """payload bytes a hostile server might put into an answer at this step"""
+    k = rng.randrange(8)
+    if k == 0:
+        return rng.choice(HANDSHAKE_TEXTS)
+    if k == 1:      # VACK with odd seed / uid
+        return b"VACK" + rbytes(rng, 4) + bytes([rng.choice([0, 15, 16, 17, 200, 255])])
+    if k == 2:
+        return rbytes(rng, rng.choice([0, 1, 2, 3, 5, 50, 200, 1200, 4096, 5000]))
+    if k == 3:      # data header + garbage / valid-looking zlib
+        return bytes([rng.randrange(256), rng.randrange(256)]) + rbytes(rng, rng.choice([0, 1, 10, 300, 3000]))
+    if k == 4:      # fragsize probe shaped
+        n = rng.choice([2, 3, 50, 200, 768, 1200, 2047])
+        return struct.pack(">H", rng.choice([n, n + 1, 0, 65535])) + bytes([107]) + bytes((i * 107) & 255 for i in range(n))
+    if k == 5:
+        return proto.DOWNCODECCHECK1[:rng.choice([47, 48])] + rbytes(rng, rng.choice([0, 1]))
+    if k == 6:      # echo of the name with changes (upstream codec test)
+        t = b".".join(q["labels"])
+        return mutate(rng, t)
+    return rng.choice(HANDSHAKE_TEXTS) + rbytes(rng, rng.randrange(0, 4))
+
+
+def client_reply(rng, q, real=None):
+    """q = dict(id, labels, qtype, ids=[recent ids]).  -> (tag dict, bytes).
+    tag['matched'] tells whether id and question fit the query the client is waiting for."""
+    qid, labels, qt = q["id"], q["labels"], q["qtype"]
+    k = rng.randrange(100)
+    ptr = b"\xc0\x0c"
+    if k < 6:
+        return {"kind": "bytes", "matched": False}, rbytes(rng, rng.choice([0, 1, 5, 11, 12, 13, 30, 200, 600, 5000]))
+    if k < 14:      # well-formed answer, wrong id -> must be ignored
+        # the client's ids advance by 7727 per query: stay clear of every id it used recently or will use soon
+        near = {(qid + k * 7727) & 0xFFFF for k in range(-4, 200)} | set(q.get("ids", ()))
+        wid = (qid + rng.choice([1, 2, 3, 7, 1000, 7726, 30000])) & 0xFFFF
+        while wid in near:
+            wid = (wid + 1) & 0xFFFF
+        pl = hostile_payload(rng, q)
+        return {"kind": "wrongid", "matched": False}, proto.build_data_answer(wid, labels, qt, pl, rng.choice("TSUVR"))
+    if k < 19:      # right id, question does not fit (first character)
+        l2 = [bytes([rng.choice(b"qwxQWX7-")]) + labels[0][1:]] + labels[1:]
+        pl = hostile_payload(rng, q)
+        return {"kind": "wrongname", "matched": False}, proto.build_data_answer(qid, l2, qt, pl, "T")
+    if k < 24:      # DNS error codes
+        return {"kind": "rcode", "matched": True}, _q(qid, 0x8180 | rng.choice([1, 2, 3, 4, 5, 9, 15]), labels, qt, 0)
+    if k < 30 and real:
+        return {"kind": "mutated", "matched": True}, mutate(rng, real)
+    if k < 34:      # raw frames on the DNS socket
+        return {"kind": "raw", "matched": False}, raw_frame(rng)
+    if k < 44:      # well-formed answer with a hostile payload in the right encoding
+        pl = hostile_payload(rng, q)
+        return {"kind": "payload", "matched": True}, proto.build_data_answer(qid, labels, qt, pl, rng.choice("TTTSUVR"))
+    # structurally hostile answer sections, per type
+    t = rng.choice([qt, qt, qt, D.T_NULL, D.T_TXT, D.T_CNAME, D.T_MX, D.T_SRV, D.T_A])
+    head = lambda an: _q(qid, 0x8400, labels, t if rng.random() < 0.8 else qt, an)
+    tag = {"kind": "struct-%s" % D.TYPENAMES.get(t, t), "matched": True}
+    j = rng.randrange(8)
+    if t in (D.T_NULL, D.T_PRIVATE):
+        body = rbytes(rng, rng.choice([0, 1, 2, 10, 100, 4096, 5000]))
+        rdlen = rng.choice([len(body), len(body) + 1, len(body) + 100, 65535, 0, 1, max(0, len(body) - 1)])
+        return tag, head(rng.choice([1, 1, 2, 0, 300])) + _rr(ptr, t, body, rdlen)
+    if t == D.T_TXT:
+        chunks = b""
+        for _ in range(rng.randrange(0, 6)):
+            n = rng.choice([0, 1, 50, 252, 255])
+            chunks += bytes([min(255, rng.choice([n, n, n + 1, 255]))]) + bytes([rng.choice(b"tsuvrTSUVRhx\x00\xff")]) + \
+                rand_label(rng, max(0, n - 1), None if rng.random() < 0.3 else b"abcdefgh0123456789+-_" + bytes(range(0xBC, 0xFE)))
+        rdlen = rng.choice([len(chunks), len(chunks), len(chunks) + 1, len(chunks) + 300, 0, 65535])
+        return tag, head(1) + _rr(ptr, D.T_TXT, chunks, rdlen)
+    if t in (D.T_CNAME, D.T_A):
+        choice = rng.randrange(6)
+        if choice == 0:     # compression loop inside rdata
+            name = b"\x01h\xc0" + bytes([rng.choice([0x0c, 0x20, 0xff])])
+        elif choice == 1:   # pointer to itself
+            off = 12 + len(D.wire_name(labels)) + 4 + 2 + 10
+            name = bytes([0xC0 | (off >> 8), off & 0xFF])
+        elif choice == 2:   # over-long labels
+            name = bytes([rng.choice([64, 100, 191])]) + rbytes(rng, 100)
+        elif choice == 3:   # hostile text under every codec letter
+            name = hostname_payload(rng, bytes([rng.choice(b"hijkHIJKtx")]),
+                                    rand_label(rng, rng.randrange(0, 240), None if rng.random() < 0.5 else codec.B128))
+        elif choice == 4:   # unterminated
+            name = b"\x3f" + rand_label(rng, 63, b"abc") + b"\x3f" + rand_label(rng, 20, b"abc")
+        else:
+            name = hostname_payload(rng, b"h", b"")
+        rt = rng.choice([D.T_CNAME, D.T_CNAME, D.T_A])
+        rdlen = rng.choice([len(name), len(name), 4, 0, len(name) + 50, 65535])
+        return tag, head(rng.choice([1, 2])) + _rr(ptr, rt, name, rdlen)
+    # MX / SRV
+    nrec = rng.choice([1, 2, 3, 10, 249, 250, 251, 300])
+    prefs = list(range(10, 10 * nrec + 1, 10))
+    style = rng.randrange(5)
+    if style == 1:
+        rng.shuffle(prefs)
+    elif style == 2:    # gaps, duplicates, non-multiples, out of range
+        prefs = [rng.choice([0, 5, 10, 10, 20, 25, 40, 2490, 2500, 2510, 65535]) for _ in range(nrec)]
+    out = b""
+    for i, p in enumerate(prefs):
+        nm = hostname_payload(rng, bytes([rng.choice(b"hijkH")]), rand_label(rng, rng.choice([0, 1, 4, 100, 230]), codec.B32))
+        if style == 3 and i % 7 == 3:
+            nm = b"\xc0" + bytes([rng.randrange(256)])
+        rd = struct.pack(">H", p) + (struct.pack(">HH", 10, 5060) if t == D.T_SRV else b"") + nm
+        rdlen = len(rd) if style != 4 else rng.choice([len(rd), len(rd) + 1, 2, 0, 65535, 300])
+        out += _rr(ptr, t, rd, rdlen)
+    cnt = rng.choice([nrec, nrec, nrec + 1, 65535 if nrec < 5 else nrec])
+    return tag, _q(qid, 0x8400, labels, t, cnt) + out
+
+
+def answer_truncations(rng, real):
+    """C12, client side: shapes derived from a REAL answer `real` that end early."""
+    n = len(real)
+    k = rng.randrange(8)
+    m = D.parse(real)
+    if k < 3 or not m.an:
+        return real[:rng.randrange(12, max(13, n))]
+    rr = m.an[0]
+    rdl_off = rr.rdoff - 2
+    rdlen = len(rr.rdata)
+    if k == 3:      # RDLENGTH larger than what is present
+        return real[:rdl_off] + struct.pack(">H", rdlen + rng.choice([1, 10, 100, 1000, 4000])) + real[rdl_off + 2:]
+    if k == 4:      # same, and cut the datagram inside the rdata
+        cut = rr.rdoff + rng.randrange(0, rdlen + 1)
+        return real[:rdl_off] + struct.pack(">H", rng.choice([rdlen, rdlen + 50, 4096])) + real[rdl_off + 2:cut]
+    if k == 5 and rr.type == D.T_TXT and rdlen > 1:     # first TXT chunk length exceeds the data
+        return real[:rr.rdoff] + bytes([255]) + real[rr.rdoff + 1:]
+    if k == 6 and rr.names:                             # name in rdata replaced by pointer to == len / beyond
+        newlen = rr.rdoff + 2 + (2 if rr.type == D.T_MX else 6 if rr.type == D.T_SRV else 0)
+        pre = real[rr.rdoff:newlen - 2]
+        tgt = rng.choice([newlen, newlen - 1, newlen + 40])
+        return real[:rdl_off] + struct.pack(">H", len(pre) + 2) + pre + bytes([0xC0 | (tgt >> 8) & 0x3F, tgt & 0xFF])
+    return real[:max(12, n - rng.randrange(1, 30))]
